@@ -2,7 +2,7 @@
 import anytree
 from anytree import LevelOrderGroupIter, LevelOrderIter, PostOrderIter, PreOrderIter, RenderTree, Resolver, Walker, ZigZagGroupIter, util
 
-from .. import mut
+from .. import big, mut, nodes
 from ..core import Violation
 
 PROP_ID = "C18"
@@ -124,7 +124,66 @@ def observe_both(rec_a, uni_a, rec_b, uni_b, full, when):
     return obs_a
 
 
+def check_deep(case, acc):
+    """The upward-looking attributes and structural calls on chains deeper than the interpreter's recursion limit, in lock-step."""
+    depth = big.deep_size(case.get("factor", 2))
+    results = []
+    for clsname in ("PlainNM", "SlotLM"):
+        make = nodes.factory(clsname)
+        chain = big.build_chain(make, depth, case["route"])
+        index = {id(n): i for i, n in enumerate(chain)}
+
+        def view(node):
+            def one(func):
+                try:
+                    return func()
+                except Exception as exc:  # noqa: BLE001 - exception classes are compared
+                    return "raised " + type(exc).__name__
+
+            return {
+                "depth": one(lambda: node.depth),
+                "root": one(lambda: index[id(node.root)]),
+                "path": one(lambda: [index[id(n)] for n in node.path][-3:] + [len(node.path)]),
+                "ancestors": one(lambda: len(node.ancestors)),
+                "iter_path_reverse": one(lambda: sum(1 for _ in node.iter_path_reverse())),
+                "is_root": one(lambda: node.is_root),
+                "is_leaf": one(lambda: node.is_leaf),
+                "siblings": one(lambda: [index[id(n)] for n in node.siblings]),
+                "common": one(lambda: len(util.commonancestors(node, chain[depth // 3]))),
+                "walk": one(lambda: [len(part) if isinstance(part, tuple) else index[id(part)] for part in Walker().walk(node, chain[depth // 3])]),
+            }
+
+        picks = [0, 1, depth // 2, depth - 2, depth - 1]
+        obs = [[view(chain[i]) for i in picks]]
+        outcomes = []
+        for call in (
+            lambda: setattr(chain[depth // 2], "parent", chain[0]),
+            lambda: setattr(chain[0], "parent", chain[-1]),
+            lambda: setattr(chain[-1], "children", [chain[depth // 2 - 1]]),
+            lambda: delattr(chain[depth // 2 + 1], "children"),
+        ):
+            try:
+                call()
+                outcomes.append("ok")
+            except Exception as exc:  # noqa: BLE001
+                outcomes.append(type(exc).__name__)
+            obs.append([view(chain[i]) for i in picks])
+        results.append((outcomes, obs))
+    (out_a, obs_a), (out_b, obs_b) = results
+    if out_a != out_b:
+        raise Violation("outcome", "chains of %d nodes: NodeMixin %s, LightNodeMixin %s" % (depth, out_a, out_b))
+    for phase, (a, b) in enumerate(zip(obs_a, obs_b)):
+        for pick, (va, vb) in enumerate(zip(a, b)):
+            for key in va:
+                if va[key] != vb[key]:
+                    raise Violation("query:" + key, "chain of %d nodes, after %d calls, node #%d: NodeMixin %r, LightNodeMixin %r" % (depth, phase, pick, va[key], vb[key]))
+    acc.nontrivial(True)
+    acc.tag("deep_chain_cases")
+
+
 def check_case(case, acc):
+    if case.get("kind") == "deep":
+        return check_deep(case, acc)
     state = case.get("state") or mut.all_roots(case["n"])
     route = case.get("route", "parent")
     pair = PAIRS[case.get("pair", "plain")]
@@ -185,6 +244,8 @@ def plan(tier, seed):
             tasks.append({"engine": "enum", "n": n, "index": i, "count": shards, "maxlen": None if n <= 3 else 2, "routes": None if n <= 3 else ["parent"]})
             if n <= 3:
                 tasks.append({"engine": "enum", "pair": "eq", "n": n, "index": i, "count": shards, "maxlen": None, "routes": ["parent"]})
+    for route in ("parent", "children"):
+        tasks.append({"engine": "deep", "route": route})
     examples = 80 if tier == "quick" else 500
     for i in range(nshards):
         tasks.append({"engine": "hyp", "examples": examples, "seed": seed * 1000 + i})
@@ -192,6 +253,12 @@ def plan(tier, seed):
 
 
 def run_task(task, acc):
+    if task["engine"] == "deep":
+        case = {"kind": "deep", "route": task["route"]}
+        exc = acc.evaluate(check_case, case, enumerated=False)
+        if exc is not None:
+            acc.add_violation(case, exc)
+        return
     if task["engine"] == "enum":
         cases = mut.enum_fault_cases("HNM", task["n"], task["index"], task["count"], fault_hooks=mut.HOOKS if task.get("pair", "plain") == "plain" else (), pairs=False, invalid=False, maxlen=task["maxlen"], routes=task["routes"], evict=True)
         acc.run_enum(check_case, (dict(c, pair=task.get("pair", "plain")) for c in cases))
